@@ -1320,6 +1320,10 @@ def minimise(violation, budget=150):
     rep = violation["replay"]
     cls = violation["class"]
     prop = violation["property"]
+    if "RecursionError" in cls or "MemoryError" in cls:
+        # whether such a failure occurs depends on how deep the caller's own stack is: a case shrunk to
+        # the edge of failing here would not fail in a fresh process.  Reported as found.
+        return violation
 
     def still_fails(candidate):
         for v in replay(candidate):
